@@ -296,6 +296,7 @@ _N13_ZIP_ALL = re.compile(r"(?<![\w.])(\w+)(\s*\.iter\(\)\s*\.zip\()(\w+)(\.iter
 _N13_ALL = re.compile(r"(?<![\w.])(\w+)(\s*\.iter\(\)\s*\.all\()(?=\|)")
 _N13_ZIP_MAP = re.compile(r"(?<![\w.])(\w+\s*\.iter\(\))(\s*\.zip\()(\w+\s*\.iter\(\))(\)\s*\.map\()(?=\|)")
 _N13_MAP = re.compile(r"(?<![\w.])(\w+\s*\.iter\(\))(\s*\.map\()(?=\|)")
+_N13_POSITION = re.compile(r"(?<![\w.])(\w+(?:\[[^\]\n]*\])?)(\s*\.iter\(\)\s*\.position\()(?=\|)")
 _N13_FOLD = re.compile(r"(?<![\w.])(\w+\s*\.iter\(\))(\s*\.fold\()")
 _N13_TAIL_COLLECT = re.compile(r"\)\s*\.collect\(\)")
 _N13_TAIL_SUM = re.compile(r"\)\s*\.sum\(\)")
@@ -313,6 +314,7 @@ def norm_iter_chains(text, m, body_open, body_close):
         A.iter().map(C).collect()                ->  verif_map_collect(A.iter(), C)
         A.iter().map(C).sum()                    ->  verif_map_sum(A.iter(), C)
         A.iter().fold(INIT, C)                   ->  verif_fold(A.iter(), INIT, C)
+        A.iter().position(C)                     ->  verif_position(&A, C)         (A may be `name[range]`)
     with A, B identifiers and C a closure literal."""
     edits = []
     closures = None
@@ -358,6 +360,9 @@ def norm_iter_chains(text, m, body_open, body_close):
         edits.append(Edit(mm.start(1), "", name, "norm:N13"))
         edits.append(Edit(mm.start(2), text[mm.start(2) : mm.end(2)], ", ", "norm:N13"))
         edits.append(Edit(t.start(), text[t.start() : t.end()], ")", "norm:N13"))
+    for mm in _N13_POSITION.finditer(m, body_open, body_close):
+        edits.append(Edit(mm.start(1), "", "verif_position(&", "norm:N13"))
+        edits.append(Edit(mm.start(2), text[mm.start(2) : mm.end(2)], ", ", "norm:N13"))
     for mm in _N13_FOLD.finditer(m, body_open, body_close):
         edits.append(Edit(mm.start(1), "", "verif_fold(", "norm:N13"))
         edits.append(Edit(mm.start(2), text[mm.start(2) : mm.end(2)], ", ", "norm:N13"))
@@ -650,6 +655,11 @@ def gen_fn(d, strip_paths, mode="verify", contract_text=None, vacuity=False):
         if pm:
             edits.append(Edit(cs + 1, params, "verif_arg", "norm:N14"))
             edits.append(Edit(bs + (1 if is_block else 0), "", " let " + params + " = verif_arg; ", "norm:N14"))
+        # ... and a reference pattern: `|&x| BODY` -> `|verif_arg| { let x = *verif_arg; BODY }` (x: Copy, as in N4)
+        rm = re.match(r"^&(\w+)$", params)
+        if rm:
+            edits.append(Edit(cs + 1, params, "verif_arg", "norm:N14"))
+            edits.append(Edit(bs + (1 if is_block else 0), "", " let " + rm.group(1) + " = *verif_arg; ", "norm:N14"))
     declared_closures = d.opt("closures")
     if declared_closures is not None:
         if closures is None:
